@@ -17,7 +17,12 @@ func init() {
 	})
 }
 
+var c08extra []func(*core.Ctx)
+
 func runC08(c *core.Ctx) {
+	for _, f := range c08extra {
+		defer f(c)
+	}
 	p := c.P
 	a0 := rule(c, "C08.anchors")
 	artSet := a0.fn(pkgART, "ART", "Set")
@@ -320,6 +325,8 @@ func runC08(c *core.Ctx) {
 		}
 	}
 }
+
+func init() { c08extra = append(c08extra, c08IndexSpaces) }
 
 func skeletonCalls(fn *ssa.Function) string {
 	var parts []string
